@@ -329,7 +329,9 @@ def _programs(tier: str) -> list[tuple[list[tuple[str, str]], dict[str, str]]]:
         return _SP["progs"]
     progs: list[tuple[list[tuple[str, str]], dict[str, str]]] = []
     # degenerate templates
-    for src in ("{% translate %}{% endtranslate %}", "{% translate %}{% plural %}{% endtranslate %}", "{% translate context: 'c' %}{% endtranslate %}x", "", "{# just a comment #}", "{% # c %}", "{% comment %}c{% endcomment %}", "plain text\nonly", "{{ g }}", "\n\n", "{# Translators: lonely #}"):
+    for src in ("{% translate %}{% endtranslate %}", "{% translate %}{% plural %}{% endtranslate %}", "{% translate context: 'c' %}{% endtranslate %}x",
+                "{% translate %}{% plural %}items{% endtranslate %}", "{% translate count: 2 %}{% plural %}items{% endtranslate %}", "{% translate count: 1 %}{% plural %}items{% endtranslate %}",
+                "{% translate context: 'c', count: 2 %}{% plural %}items{% endtranslate %}", "{% translate count: 2 %}  \n {% plural %}items{% endtranslate %}", "{% translate count: 2 %}item{% plural %}{% endtranslate %}", "", "{# just a comment #}", "{% # c %}", "{% comment %}c{% endcomment %}", "plain text\nonly", "{{ g }}", "\n\n", "{# Translators: lonely #}"):
         progs.append(([("text", src)], {}))
     sm1 = site_markups("M1", tier)
     # single sites, preceded by 0..2 newlines of text
